@@ -29,7 +29,7 @@ def abs_enc(d):
 def fixture_funcs():
     from mtfx import funcs
     return {
-        "mod_func": funcs.mod_func, "wrapped": funcs.wrapped.__wrapped__,
+        "mod_func": funcs.mod_func, "vocab": funcs.vocab, "vocab2": funcs.vocab2, "wrapped": funcs.wrapped.__wrapped__,
         "wrapped_twice": funcs.wrapped_twice.__wrapped__.__wrapped__, "gen_func": funcs.gen_func,
         "coro_func": funcs.coro_func, "K.inst": funcs.K.__dict__["inst"], "K.cm": funcs.K.__dict__["cm"].__func__,
         "K.sm": funcs.K.__dict__["sm"].__func__, "K.prop": funcs.K.__dict__["prop"].fget,
@@ -169,14 +169,24 @@ def gen_jobs(tier, seed, env_text):
     big, wrap3, tds = TU("big"), TU("wrap3"), TU("tds")
     small1, wide, tiny2, full1 = VU("small1"), VU("wide"), VU("tiny2"), VU("full1")
     q = tier == "quick"
+    STRT0, INTT0 = T("cls", "str"), T("cls", "int")
     add("type universe t1 (exhaustive)", [{"kind": "type", "t": t} for t in t1])
     add("big unions", [{"kind": "type", "t": t} for t in (rng.sample(big, 1500) if q else big)])
     add("depth-3 types", [{"kind": "type", "t": t} for t in (rng.sample(wrap3, 800) if q else wrap3)])
     add("TypedDict types (exhaustive)", [{"kind": "type", "t": t} for t in tds])
+    # records whose keys are the words of the store's own JSON vocabulary
+    voc = [T("td", "", [], [T("req", "module", [STRT0]), T("req", "qualname", [STRT0])]),
+           T("td", "", [], [T("req", "module", [INTT0]), T("opt", "qualname", [STRT0]), T("req", "elem_types", [T("list", "", [INTT0])])]),
+           T("td", "", [], [T("req", "is_typed_dict", [T("cls", "bool")]), T("req", "elem_types", [T("td", "", [], [T("req", "module", [STRT0])])])]),
+           T("td", "", [], [T("opt", "qualname", [STRT0])]), T("td", "", [], [T("req", "elem_types", [INTT0]), T("req", "qualname", [INTT0]), T("req", "module", [INTT0])])]
+    add("TypedDicts whose keys are words of the JSON vocabulary (module, qualname, elem_types, is_typed_dict), bare and nested",
+        [{"kind": "type", "t": sh(t)} for t in voc for sh in (lambda x: x, lambda x: T("list", "", [x]), lambda x: T("dict", "", [STRT0, x]),
+                                                                 lambda x: T("union", "", [], [x, INTT0]))])
     add("rewritten forms: Tuple[T, ...]", [{"kind": "type", "t": T("tuplevar", "", [t])} for t in t1[:40]])
     look = [T("cls", "mtfx.lookalikes." + n) for n in ("TimeoutError", "Warning", "frozenset", "NoneType", "List", "Holder.int", "Union", "Set", "Dict",
                                                              "Generator", "Iterator", "TypedDict", "Tuple")]
     look.append(T("cls", "mtfx.shapes.FalsyCls"))        # a class object whose truth value is False
+    look += [T("cls", "mtfx.shapes.AnyProxy"), T("cls", "mtfx.shapes.AnyHolder.Lazy")]     # classes deriving from typing.Any
     STRT, INTT = T("cls", "str"), T("cls", "int")
     shapes_of = [lambda c: c, lambda c: T("typeof", "", [c]), lambda c: T("list", "", [c]), lambda c: T("dict", "", [STRT, c]),
                  lambda c: T("union", "", [], [c, INTT]), lambda c: T("td", "", [], [T("req", "x", [c])]),
@@ -194,11 +204,11 @@ def gen_jobs(tier, seed, env_text):
     add("inferred from random multisets",
         [{"kind": "vals", "vals": rng.sample(full1 + wide + tiny2, rng.randint(2, 6)), "k": rng.choice(ks)}
          for _ in range(2000 if q else 40000)])
-    fnames = ["mod_func", "wrapped", "wrapped_twice", "gen_func", "coro_func", "K.inst", "K.cm", "K.sm", "K.prop", "K.wrapped_meth",
+    fnames = ["mod_func", "vocab", "vocab2", "wrapped", "wrapped_twice", "gen_func", "coro_func", "K.inst", "K.cm", "K.sm", "K.prop", "K.wrapped_meth",
               "K.Nested.meth", "K.Nested.nsm", "KSub.inst"]
     nf = lambda t: json.dumps(t).count('"k": "req"') + json.dumps(t).count('"k": "opt"')  # noqa: E731
     many_keys = sorted(tds, key=lambda t: (-nf(t), canon(t)))[:12]       # TypedDicts with several keys first
-    tpool = many_keys + tds[:8] + rng.sample(t1, 40 if q else 400) + [T("cls", "mtfx.shapes.FalsyCls")]
+    tpool = many_keys + tds[:8] + rng.sample(t1, 40 if q else 400) + [T("cls", "mtfx.shapes.FalsyCls")] + voc[:2]
     add("call traces: every fixture function x ret/yield in {absent, NoneType, type}",
         [{"kind": "call", "func": f, "types": [t, rng.choice(tpool)], "ret": r, "yld": y}
          for f in fnames for t in tpool for r in ("absent", "none", "type") for y in ("absent", "none", "type")])
